@@ -350,7 +350,7 @@ def main(argv):
     hx_cmd = [bin_for(pid), cfg["hx"], "--seed", str(a.seed), "--n", str(n), "--out", work, "--tier", a.tier,
               "--shard", str(cfg.get("shard", 100))]
     if a.replay:
-        hx_cmd += ["--replay", a.replay]
+        hx_cmd += ["--replay", os.path.abspath(a.replay)]
     rc_h, out_h = sh(hx_cmd, cwd=HARNESS, timeout=cfg.get("%s_timeout" % a.tier, 3000), env=go_env())
     report = None
     rp_path = os.path.join(work, "report.json")
